@@ -98,6 +98,24 @@ def _base_attr(a):
     return DERIVED.get(a, a)
 
 
+def _operand_roles(eqf):
+    """names standing for (sub)terms of the two operands of an __eq__: the parameters, and the elements popped from work lists seeded with them"""
+    sp, op_ = eqf.params[0], eqf.params[1]
+    role = {sp: "self", op_: "other"}
+    queues = {}
+    for n in walk_no_nested(eqf.node):
+        if isinstance(n, ast.Assign) and len(n.targets) == 1 and isinstance(n.targets[0], ast.Name) and isinstance(n.value, ast.Call) and n.value.args:
+            a0 = n.value.args[0]
+            if isinstance(a0, (ast.List, ast.Tuple)) and len(a0.elts) == 1 and isinstance(a0.elts[0], ast.Name) and a0.elts[0].id in role:
+                queues[n.targets[0].id] = role[a0.elts[0].id]
+    for n in walk_no_nested(eqf.node):
+        if isinstance(n, ast.Assign) and len(n.targets) == 1 and isinstance(n.targets[0], ast.Name) and isinstance(n.value, ast.Call) \
+                and isinstance(n.value.func, ast.Attribute) and n.value.func.attr in ("popleft", "pop") and isinstance(n.value.func.value, ast.Name) \
+                and n.value.func.value.id in queues:
+            role[n.targets[0].id] = queues[n.value.func.value.id]
+    return role
+
+
 def rule_h3(repo, col, root):
     m = root.module
     eqf = root.methods.get("__eq__")
@@ -108,6 +126,9 @@ def rule_h3(repo, col, root):
     parents = m.parents()
     eq_uncond = set()
     eq_cond = {}
+    role = _operand_roles(eqf)
+    both = set(role)
+    selfside = set(k for k, v in role.items() if v == "self")
     for n in walk_no_nested(eqf.node):
         if not isinstance(n, ast.Compare):
             continue
@@ -115,7 +136,7 @@ def rule_h3(repo, col, root):
         attrs = set()
         for sd in sides:
             for sub in ast.walk(sd):
-                if isinstance(sub, ast.Attribute) and isinstance(sub.value, ast.Name) and sub.value.id in ("t1", "t2", "self", "other"):
+                if isinstance(sub, ast.Attribute) and isinstance(sub.value, ast.Name) and sub.value.id in both:
                     attrs.add(_base_attr(sub.attr))
         if not attrs:
             continue
@@ -124,7 +145,7 @@ def rule_h3(repo, col, root):
         if isinstance(p, ast.BoolOp) and isinstance(p.op, ast.And):
             for v in p.values:
                 vv = v.operand if isinstance(v, ast.UnaryOp) and isinstance(v.op, ast.Not) else v
-                if isinstance(vv, ast.Call) and dotted(vv.func) == "isinstance" and len(vv.args) == 2 and isinstance(vv.args[0], ast.Name) and vv.args[0].id in ("t1", "self"):
+                if isinstance(vv, ast.Call) and dotted(vv.func) == "isinstance" and len(vv.args) == 2 and isinstance(vv.args[0], ast.Name) and vv.args[0].id in selfside:
                     # only a restriction when it does not merely select the whole class
                     cond = norm(v)
         for a in attrs:
@@ -136,7 +157,7 @@ def rule_h3(repo, col, root):
     for n in walk_no_nested(eqf.node):
         if isinstance(n, ast.Call) and isinstance(n.func, ast.Attribute) and n.func.attr == "extend" and n.args:
             for sub in ast.walk(n.args[0]):
-                if isinstance(sub, ast.Attribute) and isinstance(sub.value, ast.Name) and sub.value.id in ("t1", "t2"):
+                if isinstance(sub, ast.Attribute) and isinstance(sub.value, ast.Name) and sub.value.id in both:
                     eq_uncond.add(_base_attr(sub.attr))
     if "__arity" not in eq_uncond or "__args" not in eq_uncond:
         raise AnalysisError("Term.__eq__: key extraction failed (found %s / conditional %s)" % (sorted(eq_uncond), eq_cond))
@@ -210,14 +231,13 @@ def _value_compare(e, a, b):
 def rule_h5_h6(repo, col, root):
     """H5 symmetric class test; H6 constant values are compared together with their type"""
     m = root.module
-    for cname, pairs in (("Term", [("t1", "t2"), ("self", "other")]), ("Constant", [("self", "other")])):
+    for cname in ("Term", "Constant"):
         c = repo.cls(MOD, cname)
         f = c.methods.get("__eq__")
         if f is None:
             continue
-        pset = list(pairs)
-        if f.params[:2] != ["self", "other"]:
-            pset.append((f.params[0], f.params[1]))
+        role = _operand_roles(f)
+        pset = [(x, y) for x, rx in role.items() for y, ry in role.items() if rx == "self" and ry == "other"]
         # H5
         for n in walk_no_nested(f.node):
             if isinstance(n, ast.Call) and dotted(n.func) == "isinstance" and len(n.args) == 2 and isinstance(n.args[1], ast.Call) and dotted(n.args[1].func) == "type" \
